@@ -458,6 +458,9 @@ fn run_history(rep: &mut Report, prop: &str, seed: u64, len: usize) -> HistoryOu
         Announce(u64),
         Level(u64),
         Grow(usize, u64),
+        /// a forged child of the peer's tip (self-consistent, inflated chain root) announced while
+        /// the peer's proof request for the genuine tip is still outstanding
+        ForgedAnnounce(u64),
     }
     let mut script: Vec<Forced> = if seed % 4 == 0 && !c05 {
         // peer 1 is proved on branch a at height L; peer 2 proves branch b at L+1 (a peer can only
@@ -480,10 +483,18 @@ fn run_history(rep: &mut Report, prop: &str, seed: u64, len: usize) -> HistoryOu
         ];
         v.reverse();
         v
+    } else if seed % 16 == 5 && !c05 {
+        // announce the tip (the client asks for its proof), announce a forged heavier header
+        // BEFORE the proof is answered, then answer the request for the genuine tip honestly: the
+        // proof proves the tip it was requested for, nothing else
+        let mut v = vec![Forced::Connect(1, 0), Forced::Announce(1), Forced::ForgedAnnounce(1), Forced::Grow(0, 1), Forced::Announce(1), Forced::ForgedAnnounce(1)];
+        v.reverse();
+        v
     } else {
         Vec::new()
     };
     let mut forced: Option<Forced>;
+    let mut force_forged = false;
     // C05, one history in eight: afterwards the chain stands still for more than MESSAGE_TIMEOUT
     // while the peers keep answering (the quiet-chain probe)
     let quiet_probe = c05 && seed % 8 == 1;
@@ -581,7 +592,7 @@ fn run_history(rep: &mut Report, prop: &str, seed: u64, len: usize) -> HistoryOu
         } else if settling {
             forced_peer = forced_settle;
         } else if !script.is_empty() {
-            if !outstanding.is_empty() {
+            if !outstanding.is_empty() && !matches!(script.last(), Some(Forced::ForgedAnnounce(_))) {
                 choice = 10; // answer the outstanding proof requests first
             } else {
                 forced = script.pop();
@@ -593,6 +604,11 @@ fn run_history(rep: &mut Report, prop: &str, seed: u64, len: usize) -> HistoryOu
                         choice = 6;
                     }
                     Some(Forced::Level(_)) | Some(Forced::Grow(..)) => choice = 3,
+                    Some(Forced::ForgedAnnounce(p)) => {
+                        forced_peer = Some(p);
+                        force_forged = true;
+                        choice = 6;
+                    }
                     None => {}
                 }
             }
@@ -791,7 +807,8 @@ fn run_history(rep: &mut Report, prop: &str, seed: u64, len: usize) -> HistoryOu
                 };
                 let ci = *world.peer_chain.get(&p).unwrap_or(&0);
                 let chain = &world.chains[ci];
-                let variant = if second_step.is_some() { 99 } else if forced_peer.is_some() || c05 { 11 } else { rng.below(12) };
+                let forged_now = std::mem::replace(&mut force_forged, false) && second_step.is_none();
+                let variant = if second_step.is_some() { 99 } else if forged_now { 2 } else if forced_peer.is_some() || c05 { 11 } else { rng.below(12) };
                 let mut packed_vh = match variant {
                     0 => chain.verifiable_header(rng.range(1, chain.tip_number())), // an older block
                     _ => chain.verifiable_header(chain.tip_number()),
@@ -814,7 +831,7 @@ fn run_history(rep: &mut Report, prop: &str, seed: u64, len: usize) -> HistoryOu
                     .get_state(&PeerIndex::new(p as usize))
                     .and_then(|st| st.get_prove_state().map(|ps| ps.get_last_header().header().hash() == chain.tip().hash()))
                     .unwrap_or(false);
-                if variant == 2 && prop != "C01" && proved_tip && chain.tip_number() >= 3 && rng.chance(1, 2) {
+                if variant == 2 && prop != "C01" && proved_tip && chain.tip_number() >= 3 && !forged_now && rng.chance(1, 2) {
                     // two steps.  First a sibling Q of the peer's proved tip P (same height, own
                     // block) that commits to a parent chain root with an inflated total difficulty:
                     // nothing but an unproven announcement.  Then a child C of P whose parent
@@ -837,7 +854,7 @@ fn run_history(rep: &mut Report, prop: &str, seed: u64, len: usize) -> HistoryOu
                     packed_vh = q;
                     pending_child = Some((p, c));
                     label = "forged-sibling";
-                } else if variant == 2 && prop != "C01" {
+                } else if variant == 2 && (prop != "C01" || forged_now) {
                     // the forged child: an own block on top of the peer's tip whose extension
                     // commits to a parent chain root with an inflated total difficulty
                     let mut forged = chain.fork(chain.tip_number(), 999);
@@ -1344,6 +1361,10 @@ fn run_history(rep: &mut Report, prop: &str, seed: u64, len: usize) -> HistoryOu
                         rep.violate("C12|tip-moved-without-more-difficulty", "the stored tip changed without a strictly greater total difficulty", replay.clone());
                     }
                     let tip_hash = after_tip.1.calc_header_hash();
+                    // a proof proves the last header it carries (the one it was requested for)
+                    if tip_hash != last_vh.header().hash() {
+                        rep.violate("C12|tip-is-not-the-proved-header", "a proof moved the stored tip to another header than the one it proves", replay.clone());
+                    }
                     let proven_by_someone = node.env.peers.get_all_prove_states().iter().any(|(_, x)| x.get_last_header().header().hash() == tip_hash);
                     if !proven_by_someone {
                         rep.violate("C12|tip-not-proven", "the stored tip is not the proven header of any peer", replay.clone());
